@@ -246,7 +246,7 @@ func (d *dataTracer) emitUnfinished() {
 		unfinished = d.actual
 	}
 
-	if unfinished > 0 {
+	if unfinished > 0 && d.builder != nil { // (no builder: data was seen before any response headers)
 		if d.isRequest {
 			d.builder.add(&RequestBodyData{
 				Envelope: d.env,
